@@ -233,6 +233,9 @@ func TestC05Keeper(t *testing.T) {
 		q.endBlock()
 		q.place(4, false, dec("0.95"), sdkmath.NewInt(20000), 0)
 		q.endBlock()
+		q.place(1, false, dec("0.950049"), sdkmath.NewInt(3000), hour) // between two ticks: a sell is fitted UP
+		q.place(2, true, dec("0.950051"), sdkmath.NewInt(3000), hour)  // a buy DOWN
+		q.endBlock()
 	}
 
 	// ---- corpus: market orders (limit = last price ± 10 % on the grid) and MM ladders, re-placed (previous ones canceled) ------
@@ -326,7 +329,13 @@ func TestC05Keeper(t *testing.T) {
 				if (mode == 1 || mode == 2) && b <= 1 && i == 0 {
 					l = hour
 				}
-				q.place(1+rng.Intn(5), buy, tick(d), amount(), l)
+				price := tick(d)
+				if rng.Chance(30) { // a message price between two ticks: fitted down for a buy, up for a sell
+					gap := tick(d + 1).Sub(price)
+					price = price.Add(gap.MulInt64(int64(1 + rng.Intn(9))).QuoInt64(10))
+					tr.Count("k.place:off-grid-price")
+				}
+				q.place(1+rng.Intn(5), buy, price, amount(), l)
 			}
 			if rng.Chance(30) {
 				q.placeMarket(1+rng.Intn(5), rng.Chance(50), amount(), life())
